@@ -70,6 +70,11 @@ CHECKS.update({
    technique="explicit-state BFS over consume/remaining/tick histories of the real Budget against a list-of-grants reference; sliding-window invariant re-derived from observed grants; shared-budget call sequences through real policies",
    text="All histories of consume(1)/consume(2)/remaining()/tick to depth 9 (12 thorough) for max_retries 0..3 and two windows: grants are all-or-nothing, refused only when the window is full, capacity returns when grants age out; for every grant instant the number of grants in (t-W, t] never exceeds max_retries. Sync and async policies sharing one budget: every retry is a grant, every BUDGET_EXHAUSTED a real refusal.",
    note="grant exactly window_s old is a don't-care read consistently; virtual clock"),
+
+ "C07": dict(engine="E2 state + E3 coro + E1 seq", cat="model_checking", ref="6 C07",
+   technique="explicit-state BFS over identity-aware call histories on the real CircuitBreaker and over interleavings of hand-driven AsyncPolicy coroutines sharing one breaker; identity-aware reference automaton with look-ahead comparison; first-divergence pruning",
+   text="(a) histories start/settle(i, success|failure|cancel)/tick with 2-3 outstanding calls on the real breaker, (b) all interleavings to depth 7 (9) of 2-3 concurrent AsyncPolicy.call/execute coroutines (with/without retry, pre-flight abort) with resume-ok, resume-failure, cancel and tick events, (c) sequential Policy/AsyncPolicy histories: from opening until the timeout every start is rejected without invoking the operation and without being counted, afterwards exactly one probe is admitted until it settles, success closes with empty history, failure re-opens with a fresh timeout, cancel frees the slot.",
+   note="two known findings (c07.stale-settle, c07.unadmitted-cancel) are listed in known_findings.json and pruned at their first divergent step; every other divergence is a violation"),
 })
 PENDING = {
 }
